@@ -143,7 +143,9 @@ class Parser:
         # try to find application name in rule files
         application_elt = None
         for root in self.roots:
-            application_elt = root.find('./application[@name="{}"]'.format(application_name))
+            # NOTE: do not insert the name in the XPath predicate as it may include a quote
+            application_elt = next((elt for elt in root.findall('./application[@name]')
+                                    if elt.get('name') == application_name), None)
             # stop search on first element found
             if application_elt is not None:
                 break
@@ -227,7 +229,9 @@ class Parser:
         if application_elt is None:
             self.logger.debug(f'Parser.get_program_element: no application element found for program={namespec}')
             return None, False
-        program_elt = application_elt.find(f'./programs/program[@name="{process_name}"]')
+        # NOTE: do not insert the name in the XPath predicate as it may include a quote
+        program_elt = next((elt for elt in application_elt.findall('./programs/program[@name]')
+                            if elt.get('name') == process_name), None)
         self.logger.trace(f'Parser.get_program_element: direct search for program={namespec} found'
                           f' {program_elt is not None}')
         is_pattern = False
